@@ -27,9 +27,11 @@ type c04Case struct {
 
 var (
 	c04OA = ref.OriginAtoms()
-	c04MA = ref.MethodAtoms()
-	c04QA = ref.RequestHeaderAtoms()
-	c04RA = ref.ResponseHeaderAtoms()
+	// the hand-picked atoms first (the products refer to them by index), then the full tables (reached by the
+	// single-atom and long-list families)
+	c04MA = append(ref.MethodAtoms(), ref.MethodTable()...)
+	c04QA = append(ref.RequestHeaderAtoms(), ref.RequestHeaderTable()...)
+	c04RA = append(ref.ResponseHeaderAtoms(), ref.ResponseHeaderTable()...)
 )
 
 func c04Atom(k c04Case) ref.AtomConfig {
@@ -111,7 +113,54 @@ func c04Run(k c04Case) (m *cors.Middleware, err error, f *vlib.Failure) {
 		}
 		err = m.Reconfigure(&cfg)
 	default:
-		return nil, nil, vlib.Failf("bad case")
+		// "reconfigure-neighbour-<i>": the middleware is first given the same configuration with exactly one scalar
+		// field changed (if that neighbour is acceptable; otherwise it stays a zero value), then reconfigured.
+		// "reconfigure-normalised-neighbour-<i>": the same, but what is passed to Reconfigure is the neighbour's own
+		// Config() result with that one field set back (the lists are then in the middleware's normal form).
+		var i int
+		normalised := strings.HasPrefix(k.Via, "reconfigure-normalised-")
+		if _, e := fmt.Sscanf(strings.Replace(k.Via, "normalised-", "", 1), "reconfigure-neighbour-%d", &i); e != nil {
+			return nil, nil, vlib.Failf("bad case")
+		}
+		first := k.Cfg
+		switch i {
+		case 0:
+			first.Credentialed = !first.Credentialed
+		case 1:
+			first.PNA = !first.PNA
+		case 2:
+			first.PNANoCORS = !first.PNANoCORS
+		case 3:
+			first.TolInsecure = !first.TolInsecure
+		case 4:
+			first.TolPSL = !first.TolPSL
+		case 5:
+			if first.MaxAge = 0; k.Cfg.MaxAge == 0 {
+				first.MaxAge = 600
+			}
+		case 6:
+			if first.Status = 0; k.Cfg.Status == 0 || k.Cfg.Status == 204 {
+				first.Status = 299
+			}
+		}
+		var e0 error
+		if m, e0 = cors.NewMiddleware(first.Config()); e0 != nil {
+			m = new(cors.Middleware)
+		}
+		m.SetDebug(i%2 == 1)
+		if cur := m.Config(); normalised && cur != nil {
+			cur.Credentialed, cur.MaxAgeInSeconds = cfg.Credentialed, cfg.MaxAgeInSeconds
+			cur.ExtraConfig = cfg.ExtraConfig
+			cfg = *cur
+		}
+		err = m.Reconfigure(&cfg)
+		if normalised {
+			// the normal form may have merged or dropped patterns (e.g. everything next to *), so the labelled atoms no
+			// longer describe what was passed: the oracle on this route is a fresh NewMiddleware on the same value
+			if _, fresh := cors.NewMiddleware(cfg); (fresh == nil) != (err == nil) {
+				return m, err, vlib.Failf("Reconfigure on a middleware configured with a one-field neighbour says err=%v for %+v; NewMiddleware on the same value says err=%v", err, cfg, fresh)
+			}
+		}
 	}
 	return m, err, nil
 }
@@ -121,6 +170,9 @@ func c04Judge(k c04Case) *vlib.Failure {
 	_, err, f := c04Run(k)
 	if f != nil {
 		return f
+	}
+	if strings.HasPrefix(k.Via, "reconfigure-normalised-") {
+		return nil // judged inside c04Run against a fresh NewMiddleware
 	}
 	if err == nil && len(want) > 0 {
 		return vlib.Failf("%s accepted %s although the documentation prohibits it: %+v", k.Via, k.Cfg.GoLiteral(), want)
@@ -188,6 +240,18 @@ func c05Judge(k c04Case) *vlib.Failure {
 	if f != nil {
 		return f
 	}
+	if strings.HasPrefix(k.Via, "reconfigure-normalised-") {
+		// judged inside c04Run against a fresh NewMiddleware; here only the typing of the reported errors
+		for e := range cfgerrors.All(err) {
+			if err == nil {
+				break
+			}
+			if _, f := c05Describe(e); f != nil {
+				return f
+			}
+		}
+		return nil
+	}
 	if len(want) == 0 {
 		if err != nil {
 			return vlib.Failf("%s rejected %s, which uses documented-permitted settings only: %v", k.Via, k.Cfg.GoLiteral(), err)
@@ -195,7 +259,7 @@ func c05Judge(k c04Case) *vlib.Failure {
 		return nil
 	}
 	if err == nil {
-		return nil // acceptance of a prohibited configuration is C04's business
+		return vlib.Failf("%s reports nothing for %s, which contains %d violation(s): %+v", k.Via, k.Cfg.GoLiteral(), len(want), want)
 	}
 	var got []c05Got
 	for e := range cfgerrors.All(err) {
@@ -280,7 +344,9 @@ func c04Explore(c *vlib.Ctx, try0 func(k c04Case)) {
 		try0(k)
 	}
 	sws := allSwitches()
-	vias := []string{"new", "reconfigure-zero", "reconfigure-configured", "reconfigure-same-origins", "reconfigure-debug"}
+	vias := []string{"new", "reconfigure-zero", "reconfigure-configured", "reconfigure-same-origins", "reconfigure-debug",
+		"reconfigure-neighbour-0", "reconfigure-neighbour-1", "reconfigure-neighbour-2", "reconfigure-neighbour-3", "reconfigure-neighbour-4", "reconfigure-neighbour-5", "reconfigure-neighbour-6",
+		"reconfigure-normalised-neighbour-0", "reconfigure-normalised-neighbour-1", "reconfigure-normalised-neighbour-2", "reconfigure-normalised-neighbour-3", "reconfigure-normalised-neighbour-4", "reconfigure-normalised-neighbour-5", "reconfigure-normalised-neighbour-6"}
 	// P1: all 32 switch combinations x all origin lists of length <= L, other fields valid
 	L := vlib.Pick(c, 2, 3)
 	ol := idxLists(len(c04OA), L)
@@ -301,7 +367,7 @@ func c04Explore(c *vlib.Ctx, try0 func(k c04Case)) {
 		ix := p1.At(i, tmp[:0])
 		via := "new"
 		if !c.Thorough() || len(ol[ix[1]]) <= 2 {
-			via = vias[int(i)%5]
+			via = vias[int(i)%len(vias)]
 		}
 		k := c04Make(sws[ix[0]], ol[ix[1]], []int{0}, []int{0}, []int{0}, 30, 0, via)
 		try(k)
@@ -322,7 +388,7 @@ func c04Explore(c *vlib.Ctx, try0 func(k c04Case)) {
 	c.ParRange(p2.Count(), 64, "C04/C05 field products", func(i int64) {
 		var tmp [8]int
 		ix := p2.At(i, tmp[:0])
-		k := c04Make(sws[ix[0]], oc[ix[1]], mc[ix[2]], qc[ix[3]], rc[ix[4]], ages[ix[5]], sts[ix[6]], vias[int(i)%5])
+		k := c04Make(sws[ix[0]], oc[ix[1]], mc[ix[2]], qc[ix[3]], rc[ix[4]], ages[ix[5]], sts[ix[6]], vias[int(i)%len(vias)])
 		try(k)
 	})
 	c.States.Add(p2.Count())
@@ -338,7 +404,7 @@ func c04Explore(c *vlib.Ctx, try0 func(k c04Case)) {
 	for i := range c04RA {
 		singles = append(singles, fa{3, i})
 	}
-	p3 := vlib.Product{Sizes: []int{len(sws), len(singles), 3, 5}}
+	p3 := vlib.Product{Sizes: []int{len(sws), len(singles), 3, len(vias)}}
 	c.ParRange(p3.Count(), 64, "C04/C05 single atoms", func(i int64) {
 		var tmp [4]int
 		ix := p3.At(i, tmp[:0])
@@ -388,7 +454,7 @@ func c04Explore(c *vlib.Ctx, try0 func(k c04Case)) {
 		case 3:
 			r = ins(validR)
 		}
-		try(c04Make(sws[ix[0]], o, m, q, r, 600, 201, vias[int(i)%5]))
+		try(c04Make(sws[ix[0]], o, m, q, r, 600, 201, vias[int(i)%len(vias)]))
 	})
 	c.States.Add(p4.Count())
 	c.Set("atoms", map[string]int{"origins": len(c04OA), "methods": len(c04MA), "request_headers": len(c04QA), "response_headers": len(c04RA)})
